@@ -510,16 +510,10 @@ class Duration(timedelta):
         )
 
     def __deepcopy__(self, _: dict[int, Self]) -> Self:
-        return self.__class__(
-            weeks=self.weeks,
-            days=self.remaining_days,
-            seconds=self.remaining_seconds,
-            microseconds=self.microseconds,
-            minutes=self.minutes,
-            hours=self.hours,
-            years=self.years,
-            months=self.months,
-        )
+        # Same state as pickle and copy.copy()
+        cls, args = self.__reduce__()
+
+        return cls(*args)
 
 
 Duration.min = Duration(days=-999999999)
